@@ -12,6 +12,7 @@ CheckLayout(e) ==
   ELSE LET L == e.layout IN
   /\ Judge("C18", "WellFormedLayout", FitsIn64(L) /\ NoOverlap(L), L, "fits, no overlap")     \* (the generator's duty)
   /\ Judge("C18", "NoPanic", e.enc.t # "panic" /\ e.dec.t # "panic" /\ e.decwrong.t # "panic", <<e.enc, e.dec.t, e.decwrong.t>>, L)
+  /\ Judge("C18", "NoPanicZeroValue", e.enczero.t # "panic", e.enczero, L)     \* unset addresses, nil slices / pointers
   /\ Judge("C18", "EncodeExact", e.enc.t = "ok" /\ EncodedOK(L, 23, e.vals, e.enc.b), e.enc, <<L, e.vals>>)
   /\ (IF e.enc.t = "ok"
         THEN /\ Judge("C18", "RoundTrip", e.dec.t = "ok" /\ e.dec.v = e.vals, e.dec, e.vals)
